@@ -95,7 +95,7 @@ def _strategy(draw):
         nrewind = draw(st.sampled_from([1, 1, 1, 2]))
     return {"layer": "system", "mols": mols, "nrewind": nrewind, "schedule": schedule,
             "maxiter_mol": draw(st.integers(0, 3)), "rng": draw(st.integers(0, 2**31 - 1)),
-            "dummies": 5001 if draw(st.integers(0, 19)) == 0 else 0}
+            "dummies": 5001 if draw(st.integers(0, 19)) == 0 else 0, "second_pass": draw(st.integers(0, 3)) == 0}
 
 
 def strategy(tier):
@@ -339,6 +339,23 @@ def check(spec, ctx):
                 BuildSystem._handle_random_walk = orig_handle
             check_static("after the system was built", None)
             finish_checks(engine, mols, range(len(mols)))
+            if spec.get("second_pass"):
+                # a further pass over the finished system (a staged build): every molecule has its positions, so
+                # none is walked again, no row changes and no residue gets a second entry
+                ctx.label("second_pass_over_finished_system")
+                final = bs.nonbond_matrix
+                before = np.array(final.positions, copy=True)
+                calls = state["calls"]
+                try:
+                    bs._compose_system(molecules)
+                except (Violation, Inconclusive):
+                    raise
+                except Exception as err:
+                    raise crash("system:second_pass_crash", err)
+                if state["calls"] != calls or not np.array_equal(before, bs.nonbond_matrix.positions):
+                    raise Violation("accepted_molecule_rebuilt", "a second pass over the finished system walked "
+                                    f"{state['calls'] - calls} further steps / changed positions of accepted molecules")
+                finish_checks(bs.nonbond_matrix, mols, range(len(mols)))
             for mi, (meta, _) in enumerate(mols):
                 for node in meta.nodes:
                     if not np.array_equal(meta.nodes[node].get("position"), engine.get_point(mi, node)):
